@@ -395,6 +395,13 @@ func runValues(u *vk.Unit, p *reg.Package, meta Meta, pkg string) {
 				b2, err := marshal(pv2)
 				if err != nil || !sameJSON(b, b2) {
 					u.Report(vk.F("reencode-differs", "type %s: %s re-encodes as %s (%v)", n, b, b2, err), cs)
+					continue
+				}
+				// the decoded value is "an equal value": it passes the validation that the original passed
+				if vv, ok := pv2.Interface().(validator); ok {
+					if err := vv.Validate(); err != nil {
+						u.Report(vk.F("decoded-value-fails-own-validation", "type %s: the value passes Validate(), encodes as %s, and what the decoder returns for that text fails Validate(): %v", n, b, err), cs)
+					}
 				}
 			}
 			for k, c := range bld.Unsupported {
